@@ -1322,6 +1322,7 @@ class Engine(ExprMixin, CallMixin):
             return pre + self.unroll_for(s, conc, st)
         k, lc = self.loop_contract(s)
         n, elem, preds, lo = self.iter_plan(it, s, st)
+        seq_of_this_loop = getattr(self, "last_enum", None)  # captured now: a nested loop's iter_plan overwrites the attribute
         idx_name = lc.get("index")
         direct = isinstance(it, VRange) and isinstance(s.target, ast.Name) and idx_name is None
         if direct:
@@ -1340,7 +1341,7 @@ class Engine(ExprMixin, CallMixin):
             if direct:
                 state.env[s.target.id] = to_z3(kval) + lo_t if not (is_conc(lo) and lo == 0) else kval
             if lc.get("seq"):
-                state.ghost[lc["seq"]] = getattr(self, "last_enum", None)
+                state.ghost[lc["seq"]] = seq_of_this_loop
             if lc.get("iter"):
                 state.ghost[lc["iter"]] = it  # ghost name for the value of the iterable expression (evaluated once)
 
@@ -1557,6 +1558,21 @@ class Engine(ExprMixin, CallMixin):
             self.use_lemma(text, st, node, when=to_z3(self.spec_eval(cond, st)))
         elif cmd.startswith("use "):
             self.use_lemma(cmd[4:], st, node)
+        elif cmd.startswith("mark "):
+            # "mark M" / "summarize M as P": P is proved here, then every hypothesis added to this path since the mark is
+            # dropped and P is kept instead (dropping hypotheses is always sound).  Keeps the by-products of one statement
+            # (lambda terms, string facts, lemma instances) out of every later obligation once their consequence is recorded.
+            st.ghost["__mark_" + cmd[5:].strip()] = len(st.pc)
+        elif cmd.startswith("summarize "):
+            mname, rest = cmd[10:].split(" as ", 1)
+            at_ = st.ghost.get("__mark_" + mname.strip())
+            if not isinstance(at_, int) or at_ > len(st.pc):
+                raise ContractError(f"summarize: no valid mark {mname.strip()!r} on this path")
+            label = g.get("label", g["at"][:24])
+            goal = self.spec_eval(rest, st)
+            self.emit(f"ghost.summarize[{label}]", st, goal, node, kind="ghost")
+            del st.pc[at_:]
+            st.assume(to_z3(goal))
         elif cmd.startswith("scoped "):
             # "scoped c1 | c2 | .. | assert P": a sub-proof.  The commands run on a copy of the state (lemma instances, auxiliary
             # asserts: each proved where it stands); of everything established there only the last plain `assert` is kept in
